@@ -56,13 +56,27 @@ theorem every_rule_sound {V : Type} (A : ArithSem V) (laws : RuleLaws A) (red : 
     ∀ ru ∈ binaryRules red, A.toOpSem.toSem.RuleSoundOn laws.WT ru :=
   binaryRules_sound A laws red hred
 
-/-- the unrelativised rule soundness (`Sem.RuleSound`, quantifying over ALL operand pairs) is false of the real
-registry in every semantics: `InverseBinaryRule` fires on `o, DiagonalInverseOperator(o)` for a non-square `o`.
-The two theorems after this one are therefore stated for an abstract rule list and used only through
-`RuleSoundOn` (FuraxProofs/Lemmas/ScanOn.lean) for the registry. -/
+/-- the unrelativised rule soundness (`RuleSoundOn (fun _ => True)`, quantifying over ALL operand pairs, well
+formed or not) is false of the real registry in every semantics: `InverseBinaryRule` fires on
+`o, DiagonalInverseOperator(o)` for a non-square `o`. -/
 theorem unrelativised_rule_soundness_is_false {V : Type} (A : ArithSem V) (s t : Struct) (hst : s ≠ t) :
-    ¬ A.toOpSem.toSem.RuleSound inverseBinaryRule :=
+    ¬ A.toOpSem.toSem.RuleSoundOn (fun _ => True) inverseBinaryRule :=
   inverseBinaryRule_not_RuleSound A s t hst
+
+/-- … and restricting to STRUCTURALLY well-formed operands (`Sem.RuleSound`, i.e. `RuleSoundOn StructOK`: what
+the constructors guarantee whatever the values are) is not enough either: in the scalar model `InverseBinaryRule`
+is unsound on `InverseOperator(3·) @ (3·)`, whose operand the model does not declare invertible (finding F13 is
+the same phenomenon for a singular `DiagonalOperator`).  The three theorems after `scan_sound_on_every_chain`
+are therefore stated for an abstract hypothesis on the rule list and used only through `RuleSoundOn`
+(FuraxProofs/Lemmas/ScanOn.lean) with `P := WTExpr A.invertible …` for the registry. -/
+theorem structural_rule_soundness_needs_invertibility :
+    ¬ scalarOpSem.toSem.RuleSound inverseBinaryRule :=
+  scalar_inverseBinaryRule_not_RuleSound
+
+/-- a well-formed expression is structurally well formed: `WTExpr` implies the guard `StructOK` of the laws
+`honest` / `homogeneous` of the semantic framework -/
+theorem wellformed_is_structOK {inv : Op → Prop} {leafOK : LeafCls → Params → Prop} (o : Op)
+    (h : WTExpr inv leafOK o) : StructOK o := h.structOK
 
 /-- the hypotheses of `reduce_sound` are jointly satisfiable (degenerate witness: scalar denotation, value space
 `{0}`), and `WTExpr` is inhabited by the shapes the rules rewrite (examples in Lemmas/RuleLawsModel.lean) -/
@@ -70,37 +84,45 @@ theorem reduce_sound_hypotheses_consistent :
     ∃ (A : ArithSem Rat) (laws : RuleLaws A), ContainerLaws A laws :=
   ⟨zeroArithSem, zeroRuleLaws, zeroContainerLaws⟩
 
-/-- **Driver soundness relative to an operand invariant `P`** (instantiated with `WTExpr` above): for any rule
-list sound on `P`-operands, any `P`-chain of any length, any starting index, any fuel, the scan returns a
-`P`-chain between the same structures denoting the same map. -/
-theorem scan_sound_on_every_chain {V : Type} (L : OpSem V) (P : Op → Prop) (hhom : ∀ v s, P (Op.mkHomothety v s))
+/-- **Driver soundness relative to an operand invariant `P`** (instantiated with `WTExpr` above) that implies
+structural well-formedness: for any rule list sound on `P`-operands, any `P`-chain of any length, any starting
+index, any fuel, the scan returns a `P`-chain between the same structures denoting the same map. -/
+theorem scan_sound_on_every_chain {V : Type} (L : OpSem V) (P : Op → Prop) (hPok : ∀ o, P o → StructOK o)
+    (hhom : ∀ v s, P (Op.mkHomothety v s))
     (red : Op → Except PyErr Op) (hr : ∀ ru ∈ binaryRules red, L.toSem.RuleSoundOn P ru) :
     ∀ fuel ops index res s t, (∀ o ∈ ops, P o) → L.toSem.WT ops s t →
       scan (reductionCfg red) fuel ops index = .ok (some res) →
       (∀ o ∈ res, P o) ∧ L.toSem.WT res s t ∧ ∀ x, L.mem s x → L.toSem.app res x = L.toSem.app ops x :=
-  scan_sound_on L.toSem P (reductionCfg red) (L.cfg_rules_sound_on P red hr) (L.homothetyRule_sound_on P hhom)
+  scan_sound_on L.toSem P hPok (reductionCfg red) (L.cfg_rules_sound_on P hPok red hr)
+    (L.homothetyRule_sound_on P hPok hhom)
 
-/-- **Driver soundness, any context** (abstract rule list; see `unrelativised_rule_soundness_is_false`).  For *any* list of sound binary rules, *any* well-typed chain (any
-length), *any* starting index, *any* number of rewrites (fuel) and *any* firing order the registry order
-induces, the scan returns a chain between the same structures denoting the same map. -/
+/-- **Driver soundness, any context** (abstract hypothesis on the rule list; see
+`structural_rule_soundness_needs_invertibility`).  For *any* list of binary rules sound on structurally
+well-formed operands (`Sem.RuleSound`), *any* well-typed chain of structurally well-formed operands (any length),
+*any* starting index, *any* number of rewrites (fuel) and *any* firing order the registry order induces, the scan
+returns a chain of structurally well-formed operands between the same structures denoting the same map. -/
 theorem scan_sound_every_chain {V : Type} (L : OpSem V) (red : Op → Except PyErr Op)
     (hr : ∀ ru ∈ binaryRules red, L.toSem.RuleSound ru) :
-    ∀ fuel ops index res s t, L.toSem.WT ops s t →
+    ∀ fuel ops index res s t, (∀ o ∈ ops, StructOK o) → L.toSem.WT ops s t →
       scan (reductionCfg red) fuel ops index = .ok (some res) →
-      L.toSem.WT res s t ∧ ∀ x, L.mem s x → L.toSem.app res x = L.toSem.app ops x :=
+      (∀ o ∈ res, StructOK o) ∧ L.toSem.WT res s t ∧
+      ∀ x, L.mem s x → L.toSem.app res x = L.toSem.app ops x :=
   scan_sound L.toSem (reductionCfg red) (L.cfg_rules_sound red hr) L.homothetyRule_sound
 
-/-- **`AlgebraicReductionRule.apply` is sound** (abstract rule list): identity removal, scalar merging/relocation (any number
-of scalar factors, on whichever side the code chooses), the scan, and the "empty chain becomes an
-identity" clause. -/
+/-- **`AlgebraicReductionRule.apply` is sound** (abstract hypothesis on the rule list): identity removal, scalar
+merging/relocation (any number of scalar factors, on whichever side the code chooses), the scan, and the "empty
+chain becomes an identity" clause, on every chain of structurally well-formed operands. -/
 theorem algebraicReduction_sound {V : Type} (L : OpSem V) (red : Op → Except PyErr Op)
     (hr : ∀ ru ∈ binaryRules red, L.toSem.RuleSound ru)
-    (ops res : List Op) (s t : Struct) (hwt : L.toSem.WT ops s t)
+    (ops res : List Op) (s t : Struct) (hok : ∀ o ∈ ops, StructOK o) (hwt : L.toSem.WT ops s t)
     (hres : algebraicReduction red ops = .ok res) :
-    L.toSem.WT res s t ∧ ∀ x, L.mem s x → L.toSem.app res x = L.toSem.app ops x :=
-  L.algebraicReduction_sound red hr ops res s t hwt hres
+    (∀ o ∈ res, StructOK o) ∧ L.toSem.WT res s t ∧
+    ∀ x, L.mem s x → L.toSem.app res x = L.toSem.app ops x :=
+  L.algebraicReduction_sound red hr ops res s t hok hwt hres
 
-/-- the scalar relocation alone: any number of scalar factors anywhere in the chain -/
+/-- the scalar relocation alone: any number of scalar factors anywhere in the chain (`ListSound f`: on every
+well-typed chain of structurally well-formed operands, `f` returns a chain of structurally well-formed operands
+between the same structures denoting the same map) -/
 theorem homothetyRule_sound {V : Type} (L : OpSem V) : L.toSem.ListSound homothetyRule :=
   L.homothetyRule_sound
 
@@ -108,8 +130,8 @@ theorem homothetyRule_sound {V : Type} (L : OpSem V) : L.toSem.ListSound homothe
 theorem identityRule_sound {V : Type} (L : OpSem V) : L.toSem.ListSound identityRule :=
   L.identityRule_sound
 
-/-- non-vacuity: `OpSem` (identity is the identity, scalars multiply, every operator is homogeneous) is
-inhabited by a concrete non-trivial semantics -/
+/-- non-vacuity: `OpSem` (identity is the identity, scalars multiply, every structurally well-formed operator
+is honest and homogeneous) is inhabited by a concrete non-trivial semantics -/
 theorem framework_inhabited : Nonempty (OpSem Rat) := ⟨scalarOpSem⟩
 
 end Furax.C01
